@@ -10,6 +10,7 @@ import (
 	"io"
 	"math/rand"
 	"os"
+	"regexp"
 	"sort"
 	"strings"
 	"sync"
@@ -17,11 +18,13 @@ import (
 	"github.com/openconfig/goyang/pkg/yang"
 	"verifharness/core"
 	"verifharness/fam/session"
+	"verifharness/fam/text"
 )
 
 func init() {
 	core.Register(&core.Family{Name: "hazard", Exec: execCase, Classify: classify, ClassifyCrashes: true})
 	core.Checks["C01"] = check
+	text.Resolve = Positions
 }
 
 type hz struct {
@@ -29,6 +32,8 @@ type hz struct {
 	Val string `json:"val"`
 }
 type cas struct {
+	Prop    string   `json:"prop"`
+	Blame   string   `json:"blame"`
 	Hazards []hz     `json:"hazards"`
 	Text    []string `json:"text"` // a text of the Text family (characters), loaded as a module
 }
@@ -511,6 +516,65 @@ func ReadBack(ms *yang.Modules) {
 	ms.GetModule("nosuchmodule")
 }
 
+var rePosAny = regexp.MustCompile(`([A-Za-z0-9_.-]+\.yang):(\d+):(\d+)`)
+
+// positions: every file:line:col that appears in an error from loading or processing must be
+// the start of a statement of that file; with a blame keyword, of a statement with that keyword.
+func positions(c *cas, files map[string]string, order []string) *core.Verdict {
+	v := &core.Verdict{OK: true, Class: classOf(c), NT: len(c.Hazards) >= 1}
+	tmp, err := os.MkdirTemp(core.Root+"/out", "hp")
+	if err == nil {
+		defer os.RemoveAll(tmp)
+		os.Chdir(tmp)
+	}
+	starts := map[string]string{} // "file:line:col" -> keyword
+	for _, n := range order {
+		ss, err := yang.Parse(files[n], n)
+		if err != nil {
+			continue // syntax-level positions are the Text family's business
+		}
+		var walk func(s *yang.Statement)
+		walk = func(s *yang.Statement) {
+			starts[s.Location()] = s.Keyword
+			for _, k := range s.SubStatements() {
+				walk(k)
+			}
+		}
+		for _, s := range ss {
+			walk(s)
+		}
+	}
+	ms := yang.NewModules()
+	var errs []error
+	for _, n := range order {
+		if _, perr := yang.Parse(files[n], n); perr != nil {
+			continue
+		}
+		if err := ms.Parse(files[n], n); err != nil {
+			errs = append(errs, err)
+		}
+	}
+	errs = append(errs, ms.Process()...)
+	for _, e := range errs {
+		for _, m := range rePosAny.FindAllStringSubmatch(e.Error(), -1) {
+			loc := m[1] + ":" + m[2] + ":" + m[3]
+			kw, ok := starts[loc]
+			if !ok {
+				v.OK, v.Sig = false, "position-is-no-statement-start"
+				v.Detail = fmt.Sprintf("the error %q names %s, which is not the start of a statement of that file\n%s", e, loc, files[m[1]])
+				return v
+			}
+			if c.Blame != "" && strings.HasPrefix(e.Error(), loc) && kw != c.Blame {
+				// only the error's own (leading) position is held against the blame table
+				v.OK, v.Sig = false, "blames-a-"+kw+"-statement"
+				v.Detail = fmt.Sprintf("single fault %s: the error %q names the %s statement at %s, it must name the %s statement\n%s", classOf(c), e, kw, loc, c.Blame, files[m[1]])
+				return v
+			}
+		}
+	}
+	return v
+}
+
 func execCase(kind byte, body []byte) *core.Verdict {
 	if kind == 'B' {
 		return mutate(body)
@@ -532,6 +596,9 @@ func execCase(kind byte, body []byte) *core.Verdict {
 		h[x.Dim] = x.Val
 	}
 	files, order := Render(h)
+	if c.Prop == "C16" {
+		return positions(&c, files, order)
+	}
 	le, pe := Exercise(files, order)
 	if len(c.Hazards) == 2 && c.Hazards[0].Dim == "aug" {
 		v.Sample = map[string]any{"hazards": c.Hazards, "m.yang": files["m.yang"], "load_errors": le, "process_errors": pe}
@@ -737,4 +804,12 @@ func check(r *core.Run) {
 		r.DirectionA("hazard", core.TLCOpts{Module: "MCText", Cfg: "MCText_" + tc + ".cfg", Workers: 16, HeapGB: 16, Timeout: 0}, nil)
 	}
 	core.SubmitCollect(r, "hazard", 'B', nB, nil)
+}
+
+// Positions is the resolve-time part of C16: run over the hazard space.
+func Positions(r *core.Run) {
+	cfg := "MCHazard_quick.cfg"
+	core.CaseSuffix = `,"prop":"C16"}`
+	r.DirectionA("hazard", core.TLCOpts{Module: "MCHazard", Cfg: cfg, Workers: 12, HeapGB: 16, Timeout: 0}, nil)
+	core.CaseSuffix = ""
 }
